@@ -563,3 +563,48 @@ def reflected_energy_native(vc):
     vc.inputs["energy_errors_for_steps_0.02_0.01_0.005_0.0025"] = [float(e) for e in errs]
     # quadratic: a factor ~16 over two halvings; accept anything beyond a factor 6 (first order gives ~4, no convergence ~1)
     vc.ensures("energy_error_second_order_with_reflections", errs[0] < 1e-9 or (errs[2] <= errs[0] / 6.0 and errs[3] <= errs[1] / 6.0))
+
+
+@bounded("C07", "hmc_fold_parity_native", native_runs=30)
+def hmc_fold_parity_native(vc):
+    """far overshoots of a Hamiltonian trajectory: on a FLAT log-density the real bounded trajectory is the straight line
+    t0 + n eps v folded into the box, and each momentum component is reversed exactly when its coordinate crossed an odd number
+    of walls (reference: mirror by mirror, written here); drifts of up to a dozen box widths per step"""
+    import numpy as np
+    from inference.mcmc import HamiltonianChain
+    seed = vc.int("seed", lo=0, hi=10 ** 6)
+    rng = np.random.default_rng(seed)
+    d = vc.int("d", lo=1, hi=3)
+    w = np.exp(rng.uniform(-1.0, 1.0, size=d))
+    lo = rng.normal(size=d) * 3
+    hi = lo + w
+    t0 = lo + w * rng.uniform(0.05, 0.95, size=d)
+    ch = HamiltonianChain(posterior=lambda t: 0.0, grad=lambda t: np.zeros(d), start=t0.copy(), bounds=(lo, hi),
+                          epsilon=0.5, display_progress=False)
+    eps = float(rng.uniform(0.2, 0.6))
+    ch.ES.epsilon = eps
+    overshoot = vc.choice("widths_per_drift", [0.3, 1.3, 2.4, 3.7, 12.5])
+    r0 = w * overshoot / eps * rng.choice([-1.0, 1.0], size=d) * rng.uniform(0.8, 1.2, size=d)
+    v0 = np.asarray(ch.mass.get_velocity(r0), dtype=float)
+    n = int(rng.integers(1, 6))
+    t1, r1 = ch.run_leapfrog(t0.copy(), r0.copy(), n)
+    t_ref, sgn = np.zeros(d), np.ones(d)
+    for c in range(d):
+        x, s, left = float(t0[c]), 1.0, abs(n * eps * float(v0[c]))
+        direction = 1.0 if v0[c] > 0 else -1.0
+        while left > 0:
+            room = (hi[c] - x) if direction > 0 else (x - lo[c])
+            if left <= room:
+                x, left = x + direction * left, 0.0
+            else:
+                x, left, direction, s = (hi[c] if direction > 0 else lo[c]), left - room, -direction, -s
+        t_ref[c], sgn[c] = x, s
+    vc.inputs.update({"t0": t0.tolist(), "r0": r0.tolist(), "lower": lo.tolist(), "upper": hi.tolist(), "n_steps": n, "epsilon": eps,
+                      "position": np.asarray(t1).tolist(), "position_expected": t_ref.tolist(),
+                      "momentum": np.asarray(r1).tolist(), "momentum_expected": (r0 * sgn).tolist()})
+    tol = 1e-9 * (np.abs(lo) + np.abs(hi) + abs(n * eps) * np.abs(v0))
+    # a trajectory that ends within rounding of a wall may be counted on either side of it: such cases decide nothing
+    near_wall = np.minimum(np.abs(t_ref - lo), np.abs(hi - t_ref)) <= 10 * tol
+    vc.ensures("trajectory_inside_the_limits", bool(np.all(t1 >= lo - tol) and np.all(t1 <= hi + tol)))
+    vc.ensures("position_is_the_symmetric_fold_of_the_free_trajectory", bool(np.all(near_wall | (np.abs(t1 - t_ref) <= 1e3 * tol))))
+    vc.ensures("momentum_reversed_exactly_for_an_odd_number_of_folds", bool(np.all(near_wall | (np.abs(r1 - r0 * sgn) <= 1e-9 * np.abs(r0)))))
